@@ -126,7 +126,8 @@ fn replay<B: Backend>(rf: &ev::ReplayFile, prop: &'static str, sweep_props: &[&s
 fn aguard_plans(tier: &str) -> Vec<(&'static str, Vec<ACfg>, usize)> {
     let q = tier == "quick";
     vec![
-        ("c16-guards-across-tasks", vec![ACfg { nsubs: 1, max_tasks: 3, only_woken: false }, ACfg { nsubs: 2, max_tasks: 3, only_woken: true }], if q { 5 } else { 6 }),
+        ("c16-guards-across-tasks", vec![ACfg { nsubs: 1, max_tasks: 3, only_woken: false, small: false }, ACfg { nsubs: 2, max_tasks: 3, only_woken: true, small: false }], if q { 4 } else { 5 }),
+        ("c16-guards-across-tasks-deep", vec![ACfg { nsubs: 1, max_tasks: 4, only_woken: false, small: true }, ACfg { nsubs: 1, max_tasks: 4, only_woken: true, small: true }], if q { 6 } else { 7 }),
     ]
 }
 
